@@ -808,7 +808,7 @@ class Field(
         super(Field, f).apply_masking(inplace=True)
 
         # Apply masking to the metadata constructs
-        self._apply_masking_constructs()
+        f._apply_masking_constructs()
 
         return f
 
